@@ -45,6 +45,7 @@ class Contract:
         self.clause_props = kw.pop("clause_props", {})   # clause-name prefix -> properties it belongs to (default: all of serves)
         self.ensures_local = _named(kw.pop("ensures_local", {}), "local")   # postconditions that may mention locals
         self.not_assumed = kw.pop("not_assumed", [])   # clauses with an open finding: checked here, never assumed by callers
+        self.bounded_clauses = kw.pop("bounded_clauses", [])   # ensures clauses left to the bounded stand-in (no solver attempt)
         self.alloc_facts = kw.pop("alloc_facts", False)   # assume entry-state references denote objects allocated at entry
         self.mutates = kw.pop("mutates", [])      # list-valued parameters the callee changes in place
         self.str_axioms = kw.pop("str_axioms", ())    # opt-in library facts about str.lower/upper
